@@ -14,11 +14,12 @@ PROPS = "Props/C06.v"
 EXTRACT = "extract/ExC06.v"
 OBLIGATION = "Directory.from_disk"
 CASE_TIMEOUT = 60
-SHRINK_BUDGET = 60
+SHRINK_BUDGET = 25
 THEOREMS = ["C06_is_git_tree", "C06_walk_refines", "C06_walk_refines_paths", "C06_walk_total", "C06_listing_order_free",
             "C06_trailing_slash", "C06_trailing_slash_root", "C06_symlink_never_followed", "C06_special_is_empty_file",
             "C06_exec_bit", "C06_perms_table", "C06_empty_ignored_is_git", "C06_satisfiable",
-            "C06_iter_total", "C06_iter_refines_recursive", "C06_iter_same_ids", "C06_iter_satisfiable"]
+            "C06_iter_total", "C06_iter_refines_recursive", "C06_iter_same_ids", "C06_iter_satisfiable",
+            "C06_leaf_ids_are_C01_blob_ids"]
 RULE = ("random file-system trees (depth <= 5, <= 120 nodes) materialised in a temporary directory: adversarial byte names "
         "(non-UTF-8, spaces, newlines, names colliding with directories in sort order), file sizes 0..1000 plus a few "
         "around the 32768-byte read block, ten permission patterns, relative/absolute/dangling/self symlinks and links to "
